@@ -114,11 +114,11 @@ def run(ctx):
         ctx.violation(f"model-strict:{strict.violated}", "Fetch.tla without deviations violates the invariant", {"tlc_counterexample": strict.error_trace[:120]})
         return ctx.finish(rule=RULE)
     # ... and the historical deviations (each repaired by a fix: commit) are rejected by TLC.
-    F.expect_rejected(ctx, "MCFetch_dev.cfg", "C01_Match", "refs_at loading the advertised tip (pre 22ee63d)")
-    F.expect_rejected(ctx, "MCFetch_dev4.cfg", "C01_Match", "unloaded remotes skipping validation (pre 82b38a1)")
+    F.expect_rejected(ctx, "MCFetch_dev.cfg", "C01_Match", "refs_at loading the advertised tip (pre e45f16a)")
+    F.expect_rejected(ctx, "MCFetch_dev4.cfg", "C01_Match", "unloaded remotes skipping validation (pre 8b012aa)")
     if thorough:
-        F.expect_rejected(ctx, "MCFetch_dev2.cfg", "BlockedUntouched", "announced sigrefs of blocked peers applied (pre 65d1a8b)")
-        F.expect_rejected(ctx, "MCFetch_dev3.cfg", "C01_Match", "rad/* never pruned (pre f5433ab)")
+        F.expect_rejected(ctx, "MCFetch_dev2.cfg", "BlockedUntouched", "announced sigrefs of blocked peers applied (pre 680f9a3)")
+        F.expect_rejected(ctx, "MCFetch_dev3.cfg", "C01_Match", "rad/* never pruned (pre a18a1ad)")
     # 3. spec -> implementation
     ordered, nclasses = F.stratified(cases, key, 0, ctx.seed)
     if not thorough:
